@@ -265,6 +265,20 @@ PROPS = {
         real_vs_stub="real: sema.connectionLimitedBackend, semaphore; simulated: wrapped object store, goroutine choice",
         assumptions=SIM_ASSUME + ["an operation 'starts' when it arrives at the wrapped backend; operations that passed the freeze gate before Freeze returned count as in flight"],
     ),
+    "C43": dict(
+        pkg="internal/repository", test="TestVerifC43", level="exploration", quick_s=45, thorough_s=600,
+        text="packs written by the real packer from 1-14 generated blobs (1 byte to 1.2 MiB, so that unrequested gaps exceed the 1 MiB skip limit; in some "
+             "runs three 13 MiB blobs so that the 32 MiB range limit splits the request), a second copy of a subset in another pack; single bits "
+             "are flipped at rest inside blobs of the first and/or second copy; LoadBlobsFromPack is called for a generated subset in generated order "
+             "with download errors before the data, inside the data (partial read), a few or without end; every requested blob gets exactly one "
+             "callback, with the exact plaintext or an error; an error is accepted only if every copy is damaged or downloads failed; nothing unrequested is delivered",
+        note="real streamPack/streamPackPart/packBlobIterator/LoadBlob over the simulated store without retry layer; subsets and fault positions are sampled",
+        design_ref="3 / C43",
+        rule="one run = generated blob sizes x duplicate subset x at-rest damage x requested subset/order x download fault mode; distinct = distinct "
+             "event-log hash among runs with a real scheduling choice or fired fault",
+        real_vs_stub="real: Repository.LoadBlobsFromPack, streamPack, LoadBlob, index, packer, crypto, zstd; simulated: object store",
+        assumptions=SIM_ASSUME,
+    ),
     "C44": dict(
         pkg="internal/repository", test="TestVerifC44", level="exploration", quick_s=40, thorough_s=600,
         text="seeded search over schedules of concurrent blob savers, packer selection, pack uploads and index saves of the real Repository over a "
